@@ -1,7 +1,8 @@
 (* C20 — EBCOT tier-1 block coder part.  Property-level theorems in Props format; the integrator
    merges these into Props/C20.v (add T1.T1Store T1.T1Ctx T1.T1CtxProofs T1.T1Model T1.T1Bytes
    T1.T1ProofsBase T1.T1ProofsSample T1.T1ProofsPass T1.T1ProofsSeq T1.T1ProofsFinal
-   T1.T1ProofsOj T1.T1ProofsBytes to its Require line).
+   T1.T1ProofsOj T1.T1ProofsBytes T1.T1ProofsSim T1.T1ProofsMqRt T1.T1ProofsComp T1.T1ProofsCompThm
+   T1.T1ProofsRestart T1.T1ProofsTermEnc T1.T1ProofsTermall to its Require line).
 
    STATUS
    * Context tables = ISO/IEC 15444-1 Annex D (Tables D.1 - D.4): COMPLETE, over every entry of
@@ -10,10 +11,21 @@
      w, h; not only 1..64), every integer orientation and style word (hence all 64 style
      combinations), every fractional-bit count fb >= 0, every pass count np, every coefficient
      with |v| < 2^31.  No reference to the arithmetic coder.
-   * C20_t1_roundtrip_statement (bytes through the real MQ / raw coders): STATEMENT only; its
-     missing part is the transport (MQ segment round trip with the three terminations and restart,
-     raw segment round trip) which belongs to the mq area.  Decided by computation on BOUNDED
-     domains below (clearly labelled), and exercised by the correspondence run / Go oracle.
+   * Bytes through the real MQ coder model (t1_roundtrip = DecodeLayeredWithMode(EncodeLayered(block),
+     Rate values) on the models): PROVED, unbounded in block size, orientation, coefficients and
+     fb, for 16 of the 64 style combinations - every style without LAZY (0x01) and PTERM (0x10):
+     default, RESET, TERMALL, VSC, SEGSYM in any combination (C20_t1_bytes_roundtrip_default,
+     _single_codeword, _termall) - and for PTERM without LAZY/TERMALL when fb >= 1
+     (C20_t1_bytes_roundtrip_pterm_fb).  Composition = t1_lockstep + the mq area's joint
+     encoder/decoder simulation (extended here to context resets between passes and to
+     RestartInitEnc segments) + one generic channel-simulation lemma for the decoder model.
+   * Still STATEMENT only (C20_t1_roundtrip_statement): styles with LAZY, and PTERM on a
+     terminated pass (PTERM with TERMALL, or PTERM with fb = 0).  What is missing are two facts
+     about the mq area's coders, stated as C20_t1_missing_erterm_statement and
+     C20_t1_missing_raw_statement; all 64 styles are decided by computation on the bounded domains
+     below and exercised by the correspondence run / Go oracle.
+   * Truncated pass counts: C20_t1_truncation_statement (Definition; not proved; false as coded
+     when the pass count stops on a non-terminated bypass pass - excluded in the statement).
 
    NOTES
    * Finding F18 (fixed in /repo b319f17): before the fix the decoder ran bypass passes on the
@@ -25,7 +37,8 @@
      code in jpeg2000/t1.  The round trip is unaffected (the model ignores the bit as the code
      does), but streams from other encoders using VSC would be decoded with the wrong contexts. *)
 From V Require Import Common.Base T1.T1Store T1.T1Ctx T1.T1CtxProofs T1.T1Model T1.T1Bytes
-  T1.T1ProofsBase T1.T1ProofsSample T1.T1ProofsPass T1.T1ProofsSeq T1.T1ProofsFinal T1.T1ProofsOj T1.T1ProofsBytes.
+  T1.T1ProofsBase T1.T1ProofsSample T1.T1ProofsPass T1.T1ProofsSeq T1.T1ProofsFinal T1.T1ProofsOj T1.T1ProofsBytes
+  T1.T1ProofsSim T1.T1ProofsMqRt T1.T1ProofsComp T1.T1ProofsCompThm T1.T1ProofsRestart T1.T1ProofsTermEnc T1.T1ProofsTermall.
 Require V.Gen.T1Tables_gen.
 
 (* ---------------------------------------------------------------------------------------
@@ -188,9 +201,83 @@ Qed.
 (* ---------------------------------------------------------------------------------------
    Bytes: composition statement and bounded instances
    --------------------------------------------------------------------------------------- *)
-(* lockstep + MQ round trip + raw-bit round trip => the block decoder returns the block from the
-   block encoder's bytes and Rate values.  NOT proved (see header); Definition only. *)
+(* THE T1 CLAUSE ON THE MODELS, all styles: the block decoder returns the block from the block
+   encoder's bytes and Rate values.  Definition only; proved for the style classes below. *)
 Definition C20_t1_roundtrip_statement : Prop := t1_roundtrip_statement.
+
+(* default style 0: one MQ codeword, normal flush *)
+Theorem C20_t1_bytes_roundtrip_default : forall (wn hn : nat) (orient fb : Z) (data : list Z),
+  length data = (wn * hn)%nat -> data_ok data -> 0 <= fb ->
+  (forall v, In v data -> exists c, v = c * 2 ^ fb) ->
+  t1_roundtrip wn hn orient 0 fb data = Ok data.
+Proof. exact t1_bytes_roundtrip_default. Qed.
+Print Assumptions C20_t1_bytes_roundtrip_default.
+
+(* any combination of RESET (context reset after every pass, still one codeword), VSC (ignored
+   by the code) and SEGSYM (four extra decisions per cleanup pass) *)
+Theorem C20_t1_bytes_roundtrip_single_codeword :
+  forall (wn hn : nat) (orient style fb : Z) (data : list Z),
+  Z.land style 21 = 0 ->
+  length data = (wn * hn)%nat -> data_ok data -> 0 <= fb ->
+  (forall v, In v data -> exists c, v = c * 2 ^ fb) ->
+  t1_roundtrip wn hn orient style fb data = Ok data.
+Proof. exact t1_bytes_roundtrip_single_codeword. Qed.
+Print Assumptions C20_t1_bytes_roundtrip_single_codeword.
+
+(* TERMALL (one codeword segment per pass, FlushToOutput + RestartInitEnc, Rate values delimit
+   the segments, contexts carried over or reset), with any of RESET, VSC, SEGSYM *)
+Theorem C20_t1_bytes_roundtrip_termall :
+  forall (wn hn : nat) (orient style fb : Z) (data : list Z),
+  Z.land style 4 <> 0 /\ Z.land style 17 = 0 ->
+  length data = (wn * hn)%nat -> data_ok data -> 0 <= fb ->
+  (forall v, In v data -> exists c, v = c * 2 ^ fb) ->
+  t1_roundtrip wn hn orient style fb data = Ok data.
+Proof. exact t1_bytes_roundtrip_termall. Qed.
+Print Assumptions C20_t1_bytes_roundtrip_termall.
+
+(* PTERM without LAZY / TERMALL when bit-plane 0 is not coded (fb >= 1; the top-level encoder
+   uses fb = 6): no pass is terminated, the stream ends with the ordinary Flush *)
+Theorem C20_t1_bytes_roundtrip_pterm_fb :
+  forall (wn hn : nat) (orient style fb : Z) (data : list Z),
+  Z.land style 5 = 0 ->
+  length data = (wn * hn)%nat -> data_ok data -> 1 <= fb ->
+  (forall v, In v data -> exists c, v = c * 2 ^ fb) ->
+  t1_roundtrip wn hn orient style fb data = Ok data.
+Proof. exact t1_bytes_roundtrip_single_codeword_fb. Qed.
+Print Assumptions C20_t1_bytes_roundtrip_pterm_fb.
+
+(* the three together *)
+Theorem C20_t1_roundtrip_partial :
+  forall (wn hn : nat) (orient style fb : Z) (data : list Z),
+  style_proved style fb ->
+  length data = (wn * hn)%nat -> data_ok data -> 0 <= fb ->
+  (forall v, In v data -> exists c, v = c * 2 ^ fb) ->
+  t1_roundtrip wn hn orient style fb data = Ok data.
+Proof. exact t1_bytes_roundtrip_partial. Qed.
+Print Assumptions C20_t1_roundtrip_partial.
+
+(* hypotheses are satisfiable and the streams are not trivial: a 2x3 block with magnitudes up to
+   2^30, fb = 6, style TERMALL|RESET|SEGSYM (73 passes, 73 segments) and style 0 *)
+Example C20_t1_bytes_roundtrip_instance :
+  Z.land 38 4 <> 0 /\ Z.land 38 17 = 0 /\ Z.land 0 21 = 0 /\ style_proved 48 6 /\
+  length [5 * 64; -3 * 64; 0; 9 * 64; 2 ^ 30; - 2 ^ 30] = (2 * 3)%nat /\
+  data_ok [5 * 64; -3 * 64; 0; 9 * 64; 2 ^ 30; - 2 ^ 30] /\
+  (match enc_layered 2 3 1 38 6 73 [5 * 64; -3 * 64; 0; 9 * 64; 2 ^ 30; - 2 ^ 30] with
+   | Ok (mb, ps, bytes) => Some (mb, length ps, forallb p_term ps, Z.ltb 73 (zlen bytes)) | _ => None end)
+  = Some (30, 73%nat, true, true) /\
+  (match enc_layered 2 3 1 0 6 73 [5 * 64; -3 * 64; 0; 9 * 64; 2 ^ 30; - 2 ^ 30] with
+   | Ok (mb, ps, bytes) => Some (mb, length ps, existsb p_term ps) | _ => None end)
+  = Some (30, 73%nat, false).
+Proof.
+  split; [discriminate|]. split; [reflexivity|]. split; [reflexivity|].
+  split; [right; right; split; [reflexivity|lia]|]. split; [reflexivity|].
+  split; [intros v Hv; cbn in Hv; lia|]. vm_compute. split; reflexivity.
+Qed.
+
+(* the two coder facts the remaining styles need, and the truncation statement (Definitions) *)
+Definition C20_t1_missing_erterm_statement : Prop := mq_erterm_segment_statement.
+Definition C20_t1_missing_raw_statement : Prop := raw_segment_statement.
+Definition C20_t1_truncation_statement : Prop := t1_truncation_statement.
 
 (* BOUNDED (finite, by computation through the MQ / raw coder models): *)
 Theorem C20_t1_roundtrip_bounded_1x1 : forall style v, 0 <= style < 64 -> -20 <= v <= 20 ->
